@@ -40,6 +40,11 @@ def main():
         tier = args[args.index('--tier') + 1]
     ids = [a for a in args if not a.startswith('--') and a not in ('quick', 'thorough')]
     ids = ids or sorted(d for d in os.listdir(SEEDED) if os.path.isdir(os.path.join(SEEDED, d)))
+    import shutil
+    gen = os.path.join(VERIF, 'lean', 'Lcapy', 'Generated')
+    bak = '/tmp/seedrun_generated_backup'
+    shutil.rmtree(bak, ignore_errors=True)
+    shutil.copytree(gen, bak)
     rows = []
     for sid in ids:
         d = os.path.join(SEEDED, sid)
@@ -116,7 +121,9 @@ def main():
                 sh(['git', '-C', '/repo', 'worktree', 'remove', '--force', root])
                 sh('git -C /repo worktree prune')
     # after runs against a mutated source the Generated/*.lean files reflect it: restore the committed baselines
-    sh(['git', '-C', VERIF, 'checkout', '--', 'lean/Lcapy/Generated'])
+    for fn in os.listdir(bak):
+        shutil.copy2(os.path.join(bak, fn), os.path.join(gen, fn))
+    shutil.rmtree(bak, ignore_errors=True)
     with open(os.path.join(SEEDED, 'RESULTS.md'), 'a') as f:
         f.write('\n### run %s tier=%s mode=%s\n\n| seeded change | property | verdict | how | s |\n|---|---|---|---|---|\n' %
                 (time.strftime('%Y-%m-%d %H:%M'), tier, 'inplace' if inplace else 'private-copy'))
